@@ -152,6 +152,20 @@ fn judge(ex: &mut Exec, f: &Plain, input: &[u64], cfg: &str, o: &Obs, cyclic: bo
         if o.out.is_some() {
             return viol("C16:eval:cyclic-diagram-evaluated", format!("[{}] the dependency relation of {:?} has a cycle but eval returned {:?}", cfg, f, o.out));
         }
+        // Interpreting operations that are not on or downstream of a cycle before refusing is tolerated
+        // (their source values exist); an operation on or downstream of a cycle has no source values, so
+        // handing it to the interpreter means running user code on data that does not exist.
+        let visited = graphref::op_visited(f);
+        for b in &o.batches {
+            for (l, xs) in b {
+                if let Some(i) = f.e.iter().position(|e| e.l == *l) {
+                    if !visited[i] {
+                        return viol("C16:eval:interpreted-an-operation-on-a-cycle", format!("[{}] eval refused the cyclic diagram {:?} but first handed hyperedge {} (on or downstream of a cycle, so without source values) to the interpreter with arguments {:?}", cfg, f, i, xs));
+                    }
+                }
+            }
+        }
+        ex.probe_if(!o.batches.is_empty(), "visited_prefix_interpreted_before_refusal");
         ex.probe("cyclic_refused");
         return Ok(());
     }
